@@ -139,3 +139,13 @@ Definition pypi_corr (c : pypi_case) : N :=
          if bool_eqb e ex && (k =? cr_code cm) then go t (i + 1) else 2 + 100 * (i + 1)
      end) os 0.
 Definition pypi_base (txt : bytes) : bytes := extract_base_version (trim txt).
+
+(* GitHub Actions refs that are not version-like (Spec.GoGha.ref_like): never admitted, always Invalid (3) *)
+Definition gha_ref_oracle (c : raw_case) : N :=
+  let '(eco, txt, os) := c in
+  if negb (eco =? 3) || ref_like txt then 0 else
+  (fix go (l : list (bytes * bool * N)) (i : N) : N :=
+     match l with
+     | [] => 0
+     | (v, e, k) :: t => if negb e && (k =? 3) then go t (i + 1) else 1 + 100 * (i + 1)
+     end) os 0.
